@@ -40,3 +40,9 @@ func VerifCheckMinerDiskSize(sk mining.SpaceKeeperV1, requiredMiBytes uint64) er
 func VerifCheckMinerPathCapacity(sk mining.SpaceKeeperV1, path string, requiredMiBytes uint64) error {
 	return checkMinerPathCapacity(sk, path, requiredMiBytes)
 }
+
+// VerifServer builds a Server that has exactly what the capacity handlers (ConfigureCapacity,
+// ConfigureCapacityByDirs, Get/Plot/Mine/StopCapacitySpace(s) ...) use.
+func VerifServer(miner mining.PoCMiner, wallet mining.PoCWallet, sk mining.SpaceKeeperV1) *Server {
+	return &Server{pocMiner: miner, pocWallet: wallet, spaceKeeperV1: sk}
+}
